@@ -280,13 +280,19 @@ class TreeSim(taps.Sim):
         self.fire("alloc_judged")
         tol = 1e-8 + 1e-9 * max(abs(amount), abs(unit))
         value0 = pos0 * price * mult
-        if amount == -value0 and abs(pos0) >= TOL:
+        # "exactly minus the current value": the library's own float resolution for zero (1e-16 absolute) decides what is exact
+        if abs(amount + value0) < TOL and abs(pos0) >= TOL:
             self.fire("alloc_exact_close")
             if pos1 != 0:
                 self.violation("c05_close", "allocate(-value) left position %r (pos before %r)" % (pos1, pos0), flags)
             return r
         c = cost(q)
         flags["q_is_minus_pos"] = bool(q == -pos0 and abs(pos0) >= TOL)
+        # the first guess of the sizing search as the statement's anchor describes it: amount / unit with direction-dependent rounding
+        q0 = amount / unit
+        if integer:
+            q0 = math.floor(q0) if (pos0 > 0 or (abs(pos0) < TOL and amount > 0)) else math.ceil(q0)
+        flags["first_guess_is_minus_pos"] = bool(q0 == -pos0 and abs(pos0) >= TOL)
         flags["q_zero"] = bool(q == 0)
         flags["comm"] = (self.cfg.get("comm") or {"kind": "zero"})["kind"]
         flags["amount_lt_unit"] = bool(abs(amount) < abs(unit))
